@@ -241,3 +241,75 @@ M("e4-if-clone-order", "C14", "quiet", "src/compile.rs",
   """                let mut env_if_false = env.clone();
                 let mut env_if_true = env.clone();
 """, "behaviour-preserving: clones taken in the other order")
+
+# ---------------------------------------------------------------- C16
+REVERT("revert-input-validate", "C16", "fire G1", "f432f84", "pre-fix tree: Input.party / Input.input not examined by validate")
+M("g1-ssa-not-unchecked", "C16", "fire G1", "src/circuit.rs",
+  """                Wire::Not(x) => {
+                    if x >= i {
+                        return Err(CircuitError::InvalidGate(i));
+                    }
+                }""",
+  """                Wire::Not(_) => {}""", "NOT gates may refer to any wire")
+M("g1-ssa-outputs-unchecked", "C16", "fire G1", "src/circuit.rs",
+  """        for &o in self.output_gates.iter() {
+            if o >= self.wires_len() {
+                return Err(CircuitError::InvalidOutput(o));
+            }
+        }
+        if self.wires_len()""",
+  """        if self.wires_len()""", "output wires are not range-checked")
+M("g1-not-rejecting", "C16", "fire G1", "src/register_circuit.rs",
+  """                Op::Not(Not(x)) => {
+                    if x > max_reg {
+                        return Err(CircuitError::InvalidInst(i));
+                    }""",
+  """                Op::Not(Not(x)) => {
+                    if x > max_reg {
+                        let _ = CircuitError::InvalidInst(i);
+                        continue;
+                    }""", "out-of-range NOT operand is skipped instead of rejected")
+M("g2-y-not-looked-up", "C16", "fire G2", "src/register_circuit.rs",
+  """                    if !register_set[y] {
+                        return Err(CircuitError::InvalidRegAccess(i, x));
+                    }
+""", "", "second operand may be an unwritten register")
+M("g2-mark-before-lookup", "C16", "fire G2", "src/register_circuit.rs",
+  """            match inst.op {
+                Op::Input(Input { party, input }) => {""",
+  """            register_set[inst.out] = true;
+            match inst.op {
+                Op::Input(Input { party, input }) => {""", "an instruction may read its own unwritten destination")
+M("g2-ssa-forward-reference", "C16", "fire G2", "src/circuit.rs",
+  """                Wire::Not(x) => {
+                    if x >= i {""",
+  """                Wire::Not(x) => {
+                    if x >= self.wires_len() {""", "NOT gates may refer to later wires")
+M("g3-no-party-guard", "C16", "fire G3", "src/register_circuit.rs",
+  """        if inputs.len() != self.input_regs.len() {
+            panic!(
+                "Circuit was built for {} parties, but found {} inputs",
+                self.input_regs.len(),
+                inputs.len()
+            );
+        }
+        for (p, &input_regs) in self.input_regs.iter().enumerate() {""",
+  """        for (p, &input_regs) in self.input_regs.iter().enumerate() {""", "register eval indexes inputs[p] without comparing the party count")
+M("g3-run-no-party-check", "C16", "fire G3", "src/eval.rs",
+  """        if self.inputs.len() != self.circuit.parties() {
+            return Err(EvalError::UnexpectedNumberOfParties);
+        }
+""", "", "Evaluator::run no longer rejects a wrong number of parties")
+M("g1-reorder-checks", "C16", "quiet", "src/register_circuit.rs",
+  """                    if !register_set[x] {
+                        return Err(CircuitError::InvalidRegAccess(i, x));
+                    }
+                    if !register_set[y] {
+                        return Err(CircuitError::InvalidRegAccess(i, x));
+                    }""",
+  """                    if !register_set[y] {
+                        return Err(CircuitError::InvalidRegAccess(i, y));
+                    }
+                    if !register_set[x] {
+                        return Err(CircuitError::InvalidRegAccess(i, x));
+                    }""", "behaviour-preserving for acceptance: checks reordered")
